@@ -866,7 +866,7 @@ def _convolve(rng, kind, force):
             'desc': f'mpc.np_convolve(a[{m}], b[{n}]{":public" if pubb else ""}, mode={mode})', 'key': (m, n, mode, pubb, str(a.tolist()), str(b.tolist()))}
 
 
-@op('np_det', ['int'])
+@op('np_det', ['int', 'f11', 'f101', 'fM'])
 def _det(rng, kind, force):
     n = rng.randint(1, 4)
     p = modulus(kind)
@@ -1687,13 +1687,12 @@ def numpy_model_lines(rng, count):
 # ---------------------------------------------------------------------------------------------
 # directed inputs for OPEN known findings (one per run) and fixed-defect regression inputs (corpus)
 # ---------------------------------------------------------------------------------------------
-@directed('x_np_det_secfld', 'f101')
+@directed('x_fixed_np_det_secfld', 'f101')
 def _x_det(rng, kind, force):
     a = np.array([[1, 2], [3, 5]], dtype=object)
     return {'inputs': {'a': a}, 'call': lambda mpc, S, X: mpc.np_det(X['a']), 'ref': lambda P: np.array(100, dtype=object),
-            # `secnum(detU)` with detU a Future raises TypeError in SecureFiniteField.__init__ (works for secint)
-            'finding_key_crash': 'np_det_secfld_typeerror', 'finding_key_numpy': 'np_det_secfld_typeerror',
-            'desc': 'mpc.np_det(SecFld(101).array([[1,2],[3,5]]))', 'key': 'x_det'}
+            # repaired by 4a0365e: `secnum(detU)` with detU a Future raised TypeError in SecureFiniteField.__init__
+            'desc': 'mpc.np_det(SecFld(101).array([[1,2],[3,5]]))', 'key': 'x_fixed_det'}
 
 
 @directed('x_zero_size_mix32_64bit', 'int')
